@@ -306,8 +306,10 @@ inductive Gap
   | blanks (n : Nat)
   /-- end the line, then `5 + n` blanks -/
   | newline (n : Nat)
-  /-- blank(s), `&`, `t` trailing blanks, end the line, then `n` blanks -/
-  | amp (pre t n : Nat)
+  /-- blank(s), `&`, `t` trailing blanks, end the line, C comment lines (possibly none: MCNP ignores comment lines
+      wherever they stand, also between an `&` line and its continuation), then `n` blanks (any number: behind `&`
+      the continuation may begin in columns 1-5) -/
+  | amp (pre t : Nat) (cs : List (Nat × Line)) (n : Nat)
   /-- blank(s), a `$` comment, end the line, then `5 + n` blanks -/
   | dollar (pre : Nat) (text : Line) (n : Nat)
   /-- end the line, C comment lines, then `5 + n` blanks -/
@@ -376,7 +378,8 @@ def layWords (indent : Nat) (first : Word) (rest : List (Nat × Word)) :
     match g with
     | .blanks n => layWords indent first (rest ++ [(n, w')]) ws gs trail td
     | .newline n => .data ⟨indent, first, rest, .plain 0 none⟩ :: layWords (5 + n) w' [] ws gs trail td
-    | .amp pre t n => .data ⟨indent, first, rest, .amp pre t⟩ :: layWords n w' [] ws gs trail td
+    | .amp pre t cs n =>
+      .data ⟨indent, first, rest, .amp pre t⟩ :: (cs.map .comment ++ layWords n w' [] ws gs trail td)
     | .dollar pre text n => .data ⟨indent, first, rest, .dollar pre text⟩ :: layWords (5 + n) w' [] ws gs trail td
     | .comments cs n =>
       .data ⟨indent, first, rest, .plain 0 none⟩ :: (cs.map .comment ++ layWords (5 + n) w' [] ws gs trail td)
